@@ -36,10 +36,11 @@ treg('runtime.T.remote_impls_unbounded', "g_runtime", ['C20'], RT)
 
 # ---- fx_custom (hand/custom.rs)
 CU = "fx_custom"
-reg('c11_fx_custom_bridged_exec_ctx', "g_custom", ["C11", "C02"], 'quick', "bridged (`: custom(msg, query)`) exec handler written for Empty sees the caller's storage, api, env.block.height and sender; exactly that handler runs", fixture=CU)
+reg('c11_fx_custom_bridged_exec_ctx', "g_custom", ["C11", "C02"], 'quick', "bridged (`: custom(msg, query)`) exec handler written for Empty sees the caller's storage, api, env.block.height and sender (observations returned in the response data, which reaches the caller through into_response); exactly that handler runs", fixture=CU)
 reg('c11_fx_custom_bridged_sudo_ctx', "g_custom", ["C11", "C02"], 'quick', "bridged sudo handler sees the caller's storage and env", fixture=CU)
 reg('c11_fx_custom_bridged_query_ctx', "g_custom", ["C11", "C02"], 'quick', "bridged query handler (into_empty on Deps) sees the caller's storage and env", fixture=CU)
-reg('c11_fx_custom_native_exec_ctx', "g_custom", ["C11", "C02"], 'quick', "native custom-typed interface handler and the contract's own handler in the same contract", fixture=CU)
+reg('c11_fx_custom_native_exec_ctx', "g_custom", ["C11", "C02"], 'quick', "native custom-typed interface handler in the same contract", fixture=CU)
+reg('c11_fx_custom_own_exec_ctx', "g_custom", ["C11", "C02"], 'quick', "the contract's own custom-typed handler in the same contract", fixture=CU)
 reg('c11_fx_custom_bridged_ok_response', "g_custom", ["C11", "C02"], 'quick', 'bridged Ok path: the Empty-typed response reaches the caller through IntoResponse::into_response with its data intact and nothing added', fixture=CU)
 treg("fx_custom.T.wrapper_dispatch_types", "g_custom", ["C11"], CU)
 treg("fx_custom.T.entry_point_types", "g_custom", ["C11", "C06"], CU)
@@ -50,6 +51,7 @@ reg("c15_fx_generic_dispatch_exec", "g_generic", ["C15", "C02"], "quick", "gener
 reg("c15_fx_generic_dispatch_other_instantiation", "g_generic", ["C15"], "thorough", "second instantiation (exec and query)", fixture=GE)
 reg("c15_fx_generic_shape", "g_generic", ["C15", "C01"], "quick", "wire shape of a generic message equals the non-generic case", fixture=GE)
 reg("c15_fx_generic_phantom_not_on_wire", "g_generic", ["C15", "C01"], "quick", "the helper variant carrying the type parameters is not on the wire: __phantom / _phantom / phantom / _Phantom are rejected by the generic exec, sudo and query message types", fixture=GE)
+treg("fx_generic.T.accepted", "g_generic", ["C15"], GE)
 for t in ["exec_msg_params_exact", "sudo_msg_params_exact", "query_msg_params_exact", "instantiate_msg_no_params", "messages_encodable_with_only_used_params", "assoc_iface_msg_params"]:
     treg("fx_generic.T." + t, "g_generic", ["C15"], GE)
 
@@ -58,6 +60,7 @@ AT = "fx_attr"
 reg("c17_fx_attr_renamed_variant", "g_attr", ["C17"], "quick", "sv::attr(serde(rename=..)) takes effect on that handler's variant only (recording Serializer)", fixture=AT)
 reg("c17_fx_attr_default_field", "g_attr", ["C17"], "quick", "#[serde(default)] written on a handler argument is attached to the message field: the field may be absent on the wire, every other field may not (scripted Deserializer)", fixture=AT)
 treg("fx_attr.T.msg_attr_lands_on_designated_kinds_only", "g_attr", ["C17"], AT)
+treg("fx_attr.T.accepted", "g_attr", ["C17"], AT)
 
 # ---- fx_exec (hand/exec.rs)
 EX = "fx_exec"
